@@ -190,6 +190,60 @@ pub trait GenM {
 }
 
 // ---------------------------------------------------------------------------------------------
+// a receiver-less provided fn in front of methods with unmock functions: the unmock_with list is
+// positional over *all* fn items
+
+#[unimock(api = SkipMock, unmock_with = [_, real_s0, _, real_s2])]
+pub trait Skip {
+    fn unit() -> u8
+    where
+        Self: Sized,
+    {
+        1
+    }
+    fn s0(&self, x: u8) -> u64;
+    fn s1(&self, x: u8) -> u64;
+    fn s2(&self, x: u8) -> u64;
+}
+
+pub fn real_s0(u: &Unimock, x: u8) -> u64 {
+    run_prog(ProgKind::Real(M::S0), x, 0, &mut ref_port(u))
+}
+
+pub fn real_s2(u: &Unimock, x: u8) -> u64 {
+    run_prog(ProgKind::Real(M::S2), x, 0, &mut ref_port(u))
+}
+
+// ---------------------------------------------------------------------------------------------
+// lending (C13) and owned instrumented values (C12)
+
+use crate::values::*;
+
+#[unimock(api = LendMock)]
+pub trait Lend {
+    fn lend_a(&self, x: u8) -> &ValA;
+    fn lend_b(&self, x: u8) -> &ValB;
+    fn lend_mut(&mut self, x: u8) -> &mut ValA;
+    fn lent(&self, x: u8) -> &Tracked;
+    fn lend_clone(&self, x: u8) -> &Unimock;
+    /// provided: lends through the default-impl delegation helper
+    fn lend_via(&self, x: u8) -> &ValA {
+        self.lend_a(x)
+    }
+}
+
+#[unimock(api = OwnMock)]
+pub trait Own {
+    fn own_single(&self, x: u8) -> Tracked;
+    fn own_multi(&self, x: u8) -> TrackedC;
+    fn own_opt(&self, x: u8) -> Option<Tracked>;
+    fn own_res(&self, x: u8) -> Result<&u32, Tracked>;
+    fn own_tup(&self, x: u8) -> (&u32, TrackedC);
+    fn own_tup1(&self, x: u8) -> (&u32, Tracked);
+    fn own_vec(&self, x: u8) -> Vec<Result<&u32, Tracked>>;
+}
+
+// ---------------------------------------------------------------------------------------------
 // dispatch
 
 /// Call a method that takes `&self`.
@@ -205,6 +259,13 @@ pub fn dispatch_ref(u: &Unimock, m: M, x: u8, y: u8) -> u64 {
         M::RcReq => u.rc_req(x),
         M::ArcReq => u.arc_req(x),
         M::E0 => u.e0(x, y),
+        M::S0 => u.s0(x),
+        M::S1 => u.s1(x),
+        M::S2 => u.s2(x),
+        M::LendClone => {
+            let _ = u.lend_clone(x);
+            7
+        }
         M::GenU8 => <Unimock as Gen<u8>>::g(u, x),
         M::GenU16 => <Unimock as Gen<u16>>::g(u, x as u16),
         M::GmU8 => u.gm::<u8>(x),
@@ -269,6 +330,22 @@ pub fn type_ids() -> &'static Vec<(TypeId, M)> {
             (TypeId::of::<ByPinMock::pin_req>(), M::PinReq),
             (TypeId::of::<ByPinMock::pin_prov>(), M::PinProv),
             (TypeId::of::<ExplMock::e0>(), M::E0),
+            (TypeId::of::<SkipMock::s0>(), M::S0),
+            (TypeId::of::<SkipMock::s1>(), M::S1),
+            (TypeId::of::<SkipMock::s2>(), M::S2),
+            (TypeId::of::<LendMock::lend_a>(), M::LendA),
+            (TypeId::of::<LendMock::lend_b>(), M::LendB),
+            (TypeId::of::<LendMock::lend_mut>(), M::LendMut),
+            (TypeId::of::<LendMock::lent>(), M::Lent),
+            (TypeId::of::<LendMock::lend_clone>(), M::LendClone),
+            (TypeId::of::<LendMock::lend_via>(), M::LendVia),
+            (TypeId::of::<OwnMock::own_single>(), M::OwnSingle),
+            (TypeId::of::<OwnMock::own_multi>(), M::OwnMulti),
+            (TypeId::of::<OwnMock::own_opt>(), M::OwnOpt),
+            (TypeId::of::<OwnMock::own_res>(), M::OwnRes),
+            (TypeId::of::<OwnMock::own_tup>(), M::OwnTup),
+            (TypeId::of::<OwnMock::own_tup1>(), M::OwnTup1),
+            (TypeId::of::<OwnMock::own_vec>(), M::OwnVec),
             (TypeId::of::<AsyncAMock::af>(), M::Af),
             (TypeId::of::<AsyncAMock::ag>(), M::Ag),
             (TypeId::of::<AsyncTMock::at>(), M::At),
